@@ -38,6 +38,15 @@ def one(path):
 from concurrent.futures import ThreadPoolExecutor
 with ThreadPoolExecutor(JOBS) as ex:
     rows = [r for r in ex.map(one, sorted(glob.glob(os.path.join(HERE, "mutants", "*.patch")) + glob.glob(os.path.join(HERE, "seeded", "*", "patch.diff")))) if r is not None]
+if only:
+    # partial run: merge the new rows into the rows of the last full run
+    old = {}
+    for line in open(os.path.join(HERE, "mutants", "RESULTS.md")):
+        m = re.match(r"\| (\S+) \| (.*?) \| (.*?) \| `(.*)` \| (\d+) \|$", line.strip())
+        if m:
+            old[m.group(1)] = (m.group(1), m.group(2), m.group(3), m.group(4), int(m.group(5)))
+    old.update({r[0]: r for r in rows})
+    rows = [old[k] for k in sorted(old, key=lambda n: (not n.endswith(".patch"), n))]
 with open(os.path.join(HERE, "mutants", "RESULTS.md"), "w") as fh:
     fh.write("# Mutant / seeded-change detection results (seeds %s, quick tier)\n\n" % seeds)
     fh.write("Produced by `tools/run_mutants.py` on repo commit %s.\n\n" % subprocess.run(["git", "-C", "/repo", "log", "--format=%h", "-1"], capture_output=True, text=True).stdout.strip())
